@@ -104,7 +104,7 @@ func cmdVerify(args []string) {
 	for _, a := range fs.Args() {
 		found := false
 		for k := range p.funcs {
-			if k == a || strings.HasSuffix(k, "."+a) || strings.HasSuffix(k, ")."+a) || strings.HasSuffix(k, a) {
+			if k == a || (strings.Contains(k, modulePathDefault) && (strings.HasSuffix(k, "."+a) || strings.HasSuffix(k, a))) {
 				keys = append(keys, k)
 				found = true
 			}
